@@ -164,7 +164,9 @@ func c22ServiceCode(self uint32, others []uint32, nXfer int, observe []uint32) [
 			m++
 		}
 	}
-	a.loadImm64(7, c22RO+32)
+	// yield the first 32 bytes of what this invocation fetched: a service accumulated in two rounds
+	// of one block (work result first, transfers later) yields two different outputs
+	a.loadImm64(7, c22RW)
 	a.ecalli(25) // yield
 	a.halt()
 	prog := c22StandardProgram(ro, make([]byte, 8192), 1, 4096, a.blob())
@@ -232,7 +234,9 @@ func c22Build(nServices, nXfer int) OuterAccumulationInput {
 		e.Authorizers[c] = make(types.AuthQueue, types.AuthQueueSize)
 	}
 	var reports []types.WorkReport
-	for i, id := range ids {
+	// sink 20 also has a work result: it is accumulated in the first round (operand) and again in the
+	// second (transfers), so the output set b holds two pairs for one service
+	for i, id := range append(append([]uint32{}, ids...), sinks[0]) {
 		var ph types.OpaqueHash
 		ph[0] = byte(i + 1)
 		reports = append(reports, types.WorkReport{
@@ -307,7 +311,7 @@ type c22Obs struct {
 	Parts map[string]string // component -> canonical rendering
 }
 
-func c22Observe(out OuterAccumulationOutput, err error) c22Obs {
+func c22Observe(err error) c22Obs {
 	o := c22Obs{Parts: map[string]string{}}
 	put := func(name string, v interface{}) {
 		var sb strings.Builder
@@ -317,23 +321,18 @@ func c22Observe(out OuterAccumulationOutput, err error) c22Obs {
 	if err != nil {
 		o.Parts["error"] = err.Error()
 	}
-	put("result.count", out.NumberOfWorkResultsAccumulated)
-	put("result.partial_state", out.PartialStateSet)
-	put("result.outputs", out.AccumulatedServiceOutput)
-	// the gas list only feeds per-service statistics (sum and count): its order is not part of the
-	// posterior state, so it is compared as a multiset
-	gl := make([]string, 0, len(out.ServiceGasUsedList))
-	for _, u := range out.ServiceGasUsedList {
-		gl = append(gl, fmt.Sprintf("%d:%d", u.ServiceID, u.Gas))
-	}
-	sort.Strings(gl)
-	put("result.gas_used_multiset", gl)
-	post := blockchain.GetInstance().GetPosteriorStates()
-	put("posterior.delta", post.GetDelta())
+	cs := blockchain.GetInstance()
+	post, mid := cs.GetPosteriorStates(), cs.GetIntermediateStates()
+	// sequences are compared as sequences (their order is state), maps by sorted key
+	put("posterior.theta_last_acc_out", post.GetLastAccOut())
+	put("intermediate.delta_double_dagger", mid.GetDeltaDoubleDagger())
+	put("intermediate.accumulation_statistics", mid.GetAccumulationStatistics())
 	put("posterior.chi", post.GetChi())
 	put("posterior.varphi", post.GetVarphi())
 	put("posterior.iota", post.GetIota())
-	put("post_unmatched_keyvals", blockchain.GetInstance().GetPostStateUnmatchedKeyVals())
+	put("posterior.xi", post.GetXi())
+	put("posterior.vartheta", post.GetVartheta())
+	put("post_unmatched_keyvals", cs.GetPostStateUnmatchedKeyVals())
 	return o
 }
 
@@ -377,6 +376,29 @@ type c22Replay struct {
 	Choices  []int `json:"choices"`
 }
 
+// c22Accumulate: one accumulation of the scenario through the state-integration entry point
+// DeferredTransfers() on a fresh chain state, and what it leaves behind.
+func c22Accumulate(services, xfers int) c22Obs {
+	blockchain.ResetInstance()
+	in := c22Build(services, xfers)
+	cs := blockchain.GetInstance()
+	e := in.InitPartialStateSet
+	ps := cs.GetPriorStates()
+	ps.SetDelta(e.ServiceAccounts)
+	ps.SetIota(e.ValidatorKeys)
+	ps.SetVarphi(e.Authorizers)
+	ps.SetChi(types.Privileges{Bless: e.Bless, Assign: e.Assign, Designate: e.Designate, CreateAcct: e.CreateAcct, AlwaysAccum: e.AlwaysAccum})
+	ps.SetXi(make(types.AccumulatedQueue, types.EpochLength))
+	ps.SetVartheta(make(types.ReadyQueue, types.EpochLength))
+	ps.SetTau(4)
+	cs.GetPosteriorStates().SetXi(make(types.AccumulatedQueue, types.EpochLength))
+	cs.GetPosteriorStates().SetVartheta(make(types.ReadyQueue, types.EpochLength))
+	cs.AddBlock(types.Block{Header: types.Header{Slot: 5}})
+	cs.GetPosteriorStates().SetTau(5)
+	cs.GetIntermediateStates().SetAccumulatableWorkReports(in.WorkReports)
+	return c22Observe(DeferredTransfers())
+}
+
 func c22RunOnce(workers, services, xfers int, free bool, prefix []int, states map[uint64]struct{}) (*vsched.Exec, c22Obs) {
 	var obs c22Obs
 	e := vsched.RunOnce(prefix, states, func(e *vsched.Exec) {
@@ -384,10 +406,7 @@ func c22RunOnce(workers, services, xfers int, free bool, prefix []int, states ma
 		e.MaxSteps = 200000
 	}, func(e *vsched.Exec) {
 		types.MaxWorkers = workers
-		blockchain.ResetInstance()
-		in := c22Build(services, xfers)
-		out, err := OuterAccumulation(in)
-		obs = c22Observe(out, err)
+		obs = c22Accumulate(services, xfers)
 	})
 	return e, obs
 }
@@ -463,7 +482,7 @@ func TestVerif_C22(t *testing.T) {
 		}
 		if globalRef == nil {
 			globalRef = &ref
-			r.Sample(map[string]interface{}{"reference_gas_used": ref.Parts["result.gas_used_multiset"], "points_default": len(e0.Points)})
+			r.Sample(map[string]interface{}{"reference_accumulation_statistics": ref.Parts["intermediate.accumulation_statistics"], "points_default": len(e0.Points)})
 		} else if part, d := c22Diff(*globalRef, ref); part != "" {
 			r.Violation("accumulation.ParallelizedAccumulation", "depends-on-worker-pool-size", part,
 				fmt.Sprintf("MaxWorkers=%d differs from MaxWorkers=%d in the default schedule: %s", cf.workers, cfgs[0].workers, d),
@@ -474,10 +493,7 @@ func TestVerif_C22(t *testing.T) {
 			Setup: func(e *vsched.Exec) { e.FreeSwitch = cf.free; e.MaxSteps = 200000 },
 			Body: func(e *vsched.Exec) {
 				types.MaxWorkers = cf.workers
-				blockchain.ResetInstance()
-				in := c22Build(services, xfers)
-				out, err := OuterAccumulation(in)
-				obs = c22Observe(out, err)
+				obs = c22Accumulate(services, xfers)
 			},
 			OnExec: func(e *vsched.Exec) {
 				r.Eval()
@@ -496,7 +512,7 @@ func TestVerif_C22(t *testing.T) {
 							pk = append(pk, fmt.Sprintf("%d:%s=%d/%d", i, p.Kind, p.Chosen, p.N))
 						}
 					}
-					fmt.Fprintf(os.Stderr, "DBG workers=%d dev=%v delta=%x\n", cf.workers, pk, vlib.H(obs.Parts["posterior.delta"]))
+					fmt.Fprintf(os.Stderr, "DBG workers=%d dev=%v delta=%x\n", cf.workers, pk, vlib.H(obs.Parts["intermediate.delta_double_dagger"]))
 				}
 				rp := c22Replay{Workers: cf.workers, Services: services, Xfers: xfers, Free: cf.free, Choices: e.Choices()}
 				if e.Outcome != "ok" {
